@@ -10,8 +10,8 @@
 (* code; `present[n]` = the hash map has key n, possibly with an empty     *)
 (* stack, as unset and a panicking get_or_new leave it) and one action per *)
 (* public mutator, written as the code computes it (the loop of            *)
-(* get_or_new_impl, the retain/pop_if of pop_context_impl, the slicing of  *)
-(* unset).                                                                 *)
+(* get_or_new_impl, the retain/pop_if of pop_context_impl, the             *)
+(* partition_point/drain of unset).                                        *)
 (*                                                                         *)
 (* It is the DRIVER of C16 (DESIGN.md 4.2): TLC checks that it refines the *)
 (* documented model VarRef step by step under the mapping                  *)
@@ -20,18 +20,10 @@
 (* representation invariant (assert_normalized), and its state graph       *)
 (* enumerates the histories replayed on the real VariableSet.  Verdicts on *)
 (* the real code come from VarRef (Trace_VarSet), not from this module.    *)
-(*                                                                         *)
-(* UnsetAsCoded selects how `unset` locates the entries to remove:         *)
-(*   FALSE  by context index (first entry with context_index >= index),    *)
-(*          which is what the doc comment specifies;                       *)
-(*   TRUE   as variable.rs:543-555 is written: `stack[index..]`, i.e. the  *)
-(*          context index used as a POSITION in the per-name stack         *)
-(*          (finding F5; MC_VarSet_ascoded.cfg shows the counterexample).  *)
 (***************************************************************************)
 EXTENDS Integers, Sequences, FiniteSets, TLC, Json
 
 CONSTANTS Names, Vals, MaxDepth, PosVals, Thens,
-          UnsetAsCoded,   \* BOOLEAN, see above
           MaxH            \* bound on the history length (generator configs)
 
 VARIABLES contexts,   \* Seq([kind, pos])            -- Vec<Context>
@@ -166,18 +158,16 @@ GetOrNew(op) ==
              IN /\ stack' = [stack EXCEPT ![n] = [st1 EXCEPT ![Len(st1)].var = f.var]]
                 /\ Log(op, f.res)
 
-\* unset
+\* unset:  index = stack.partition_point(|vic| vic.context_index < context_index);
+\*         read-only check over stack[index..]; stack.drain(index..).next_back()
 Unset(op) ==
   LET n == op.n
       st == stack[n]
-      index == IndexOfContext(op.scope)
-      \* where the removal starts, as a 0-based position in the stack
-      from == IF UnsetAsCoded THEN index
-              ELSE Cardinality({j \in 1..Len(st) : st[j].ci < index})
+      cidx == IndexOfContext(op.scope)
+      \* 0-based position of the first entry defined in context cidx or above
+      from == Cardinality({j \in 1..Len(st) : st[j].ci < cidx})
   IN /\ UNCHANGED <<contexts, present>>
      /\ IF ~present[n] THEN UNCHANGED stack /\ Log(op, Ref!Ok)
-        ELSE IF from > Len(st)
-        THEN UNCHANGED stack /\ Log(op, Ref!Res("panic", Absent, Ref!NoOld))   \* slice start out of range
         ELSE IF \E j \in (from + 1)..Len(st) : st[j].var.ro
         THEN UNCHANGED stack /\ Log(op, Ref!Res("err", Absent, Ref!NoOld))
         ELSE /\ stack' = [stack EXCEPT ![n] = SubSeq(st, 1, from)]              \* drain(index..)
